@@ -61,6 +61,10 @@ def _batch(chk, cmd, model, tag, state, samples, dist, nsamples=0):
     if not b:
         return None
     vlib.digest_batch(chk, b[0], b[1], classify, state)
+    for (_, status, detail) in b[1]:
+        m = re.search(r" s3=(\d+)", detail) if status == "ok" else None
+        if m:
+            dist["s3_values_compared_with_service_data"] = dist.get("s3_values_compared_with_service_data", 0) + int(m.group(1))
     for c in b[0][:nsamples]:
         samples.append(c[:1500] + (" ..." if len(c) > 1500 else ""))
     try:
